@@ -59,7 +59,36 @@ def run(cfg):
     rendered_order(cfg, R)
     inline_rule(cfg, R)
     pydb_rule(cfg, R)
+    scope_subset_rule(cfg, R)
     return R
+
+
+def scope_subset_rule(cfg, R):
+    """R8 (E-SEQ, acv/pipeline.py): the same sweep TZ source is compiled for both scopes by interpreting the compiler; every
+    zone and link emitted for the basic scope must be emitted for the extended scope as well (basic is the restricted
+    database: its filters are the common ones plus basic-only ones)."""
+    from . import pipeline
+    R.rule('R8', 'sweep: every zone and link the compiler emits in basic scope it also emits in extended scope from the same source', floor=40)
+    tr = py.load(cfg, pipeline.TR)
+    loc = tr.fn('Transformer.transform').loc
+    for strict in ((False, True) if cfg.tier == 'thorough' else (False,)):
+        text = pipeline.sweep_text('both')
+        label = 'strict' if strict else 'default'
+        try:
+            b, _rb = pipeline.compile_text(cfg, text, 'basic', strict=strict)
+            x, _rx = pipeline.compile_text(cfg, text, 'extended', strict=strict)
+        except pipeline.Raised as r_:
+            R.instance('R8', 'sweep[%s]:compile' % label, loc)
+            R.violation('R8', 'sweep[%s]:compile' % label, loc, '%s' % r_.what)
+            continue
+        for kind, key, rem in (('zone', 'zones_map', 'removed_zones'), ('link', 'links_map', 'removed_links')):
+            c = 'sweep[%s]:%ss' % (label, kind)
+            for name in sorted(b[key]):
+                R.instance('R8', c, loc)
+                if name not in x[key]:
+                    R.violation('R8', c, loc, '[%s] %s %s is emitted in basic scope but not in extended scope (extended lists it as removed: %s)' % (
+                        label, kind, name, x[rem].get(name)))
+                    break
 
 
 def order_rule(R, mods):
